@@ -32,6 +32,32 @@ pub enum Act {
 pub enum LSpec {
     Dense { inp: usize, out: usize, act: Act },
     Conv { filters: (usize, usize, usize, usize), stride: (usize, usize), act: Act },
+    // user-defined implementations of the Layer trait (written with library operators), as Model must accept them:
+    /// no parameters: a pure activation layer
+    ActOnly { act: Act },
+    /// one parameter: a per-feature gain, x * g
+    Gain { n: usize },
+    /// three parameters (weights, gain, bias): act((x W^T) * g + b)
+    Affine3 { inp: usize, out: usize, act: Act },
+}
+impl LSpec {
+    pub fn n_params(&self) -> usize {
+        match self {
+            LSpec::Dense { .. } | LSpec::Conv { .. } => 2,
+            LSpec::ActOnly { .. } => 0,
+            LSpec::Gain { .. } => 1,
+            LSpec::Affine3 { .. } => 3,
+        }
+    }
+    pub fn act(&self) -> Act {
+        match self {
+            LSpec::Dense { act, .. } | LSpec::Conv { act, .. } | LSpec::ActOnly { act } | LSpec::Affine3 { act, .. } => *act,
+            LSpec::Gain { .. } => Act::None,
+        }
+    }
+    pub fn is_user_defined(&self) -> bool {
+        !matches!(self, LSpec::Dense { .. } | LSpec::Conv { .. })
+    }
 }
 
 #[derive(Clone, Debug)]
@@ -62,9 +88,26 @@ impl NetSpec {
                     v.push(vec![filters.0, filters.1, filters.2, filters.3]);
                     v.push(vec![filters.0, 1, 1]);
                 }
+                LSpec::ActOnly { .. } => {}
+                LSpec::Gain { n } => v.push(vec![*n]),
+                LSpec::Affine3 { inp, out, .. } => {
+                    v.push(vec![*out, *inp]);
+                    v.push(vec![*out]);
+                    v.push(vec![*out]);
+                }
             }
         }
         v
+    }
+    /// index of the first parameter of every layer in the flat parameter list
+    pub fn param_offsets(&self) -> Vec<usize> {
+        let mut o = vec![];
+        let mut k = 0;
+        for l in &self.layers {
+            o.push(k);
+            k += l.n_params();
+        }
+        o
     }
 }
 
@@ -79,25 +122,28 @@ pub fn act_ref<S: Sc>(a: Act, x: T<S>) -> T<S> {
 
 /// documented layer formulas: dense = act(x W^T + b); conv = act(conv(x, filters, stride) + b), one bias per filter
 pub fn layer_ref<S: Sc>(l: &LSpec, w: &T<S>, b: &T<S>, x: &T<S>) -> Option<(T<S>, T<S>)> {
+    layer_ref_n(l, &[w.clone(), b.clone()], x)
+}
+/// the same for any layer kind: `ps` are that layer's parameters in `parameters()` order
+pub fn layer_ref_n<S: Sc>(l: &LSpec, ps: &[T<S>], x: &T<S>) -> Option<(T<S>, T<S>)> {
     let pre = match l {
-        LSpec::Dense { .. } => T::matmul(x, false, w, true, Some(b))?,
-        LSpec::Conv { stride, .. } => T::conv(x, w, stride.0, stride.1)?.zip(b, |p, q| p + q)?,
+        LSpec::Dense { .. } => T::matmul(x, false, &ps[0], true, Some(&ps[1]))?,
+        LSpec::Conv { stride, .. } => T::conv(x, &ps[0], stride.0, stride.1)?.zip(&ps[1], |p, q| p + q)?,
+        LSpec::ActOnly { .. } => x.clone(),
+        LSpec::Gain { .. } => x.zip(&ps[0], |p, q| p * q)?,
+        LSpec::Affine3 { .. } => T::matmul(x, false, &ps[0], true, None)?.zip(&ps[1], |p, q| p * q)?.zip(&ps[2], |p, q| p + q)?,
     };
-    let act = match l {
-        LSpec::Dense { act, .. } | LSpec::Conv { act, .. } => *act,
-    };
-    Some((pre.clone(), act_ref(act, pre)))
+    Some((pre.clone(), act_ref(l.act(), pre)))
 }
 
 /// returns (output, any relu pre-activation exactly at the kink)
 pub fn forward_ref<S: Sc>(spec: &NetSpec, params: &[T<S>], input: &T<S>) -> Option<(T<S>, bool)> {
     let mut x = input.clone();
     let mut kink = false;
+    let offs = spec.param_offsets();
     for (i, l) in spec.layers.iter().enumerate() {
-        let (pre, out) = layer_ref(l, &params[2 * i], &params[2 * i + 1], &x)?;
-        let act = match l {
-            LSpec::Dense { act, .. } | LSpec::Conv { act, .. } => *act,
-        };
+        let (pre, out) = layer_ref_n(l, &params[offs[i]..offs[i] + l.n_params()], &x)?;
+        let act = l.act();
         // on (or within rounding distance of) the kink the sub-gradient choice is not determined
         let eps = 10.0 * tau() * pre.max_abs().max(1.0);
         if act == Act::Relu && pre.v.iter().any(|v| v.val().abs() <= eps) {
@@ -192,10 +238,26 @@ pub fn gen_net(r: &mut Rng, big: bool) -> NetSpec {
         let sizes: Vec<usize> = (0..=n).map(|_| r.range(1, maxs)).collect();
         let ce = r.chance(1, 2);
         let mut layers = vec![];
+        // a quarter of the dense stacks mix in layers a user of the library would write (0, 1 or 3 parameter arrays)
+        let with_user_layers = r.chance(1, 4);
         for i in 0..n {
             let last = i == n - 1;
             let act = if last && ce { Act::Softmax } else if last { acts[r.below(4)] } else { acts[r.below(3)] };
-            layers.push(LSpec::Dense { inp: sizes[i], out: sizes[i + 1], act });
+            if with_user_layers && r.chance(1, 2) {
+                layers.push(LSpec::Affine3 { inp: sizes[i], out: sizes[i + 1], act });
+            } else {
+                layers.push(LSpec::Dense { inp: sizes[i], out: sizes[i + 1], act });
+            }
+            if with_user_layers && !last {
+                match r.below(3) {
+                    0 => layers.push(LSpec::Gain { n: sizes[i + 1] }),
+                    1 => layers.push(LSpec::ActOnly { act: acts[1 + r.below(2)] }),
+                    _ => {}
+                }
+            }
+        }
+        if with_user_layers && r.chance(1, 3) {
+            layers.insert(0, LSpec::Gain { n: sizes[0] });
         }
         let in_dims = match r.below(6) {
             0 => vec![sizes[0]],
@@ -373,19 +435,49 @@ fn owned_act(a: Act) -> Option<Activation> {
 pub enum RealLayer<'a> {
     D(Dense<'a>),
     C(Conv),
+    U(UserLayer),
 }
 impl<'a> Layer for RealLayer<'a> {
     fn forward(&self, input: Array) -> Array {
         match self {
             RealLayer::D(d) => d.forward(input),
             RealLayer::C(c) => c.forward(input),
+            RealLayer::U(u) => u.forward(input),
         }
     }
     fn parameters(&mut self) -> Vec<&mut Array> {
         match self {
             RealLayer::D(d) => d.parameters(),
             RealLayer::C(c) => c.parameters(),
+            RealLayer::U(u) => u.parameters(),
         }
+    }
+}
+
+/// A layer as a user of the library would write one: the Layer trait implemented with library operators.
+pub struct UserLayer {
+    pub kind: LSpec,
+    pub params: Vec<Array>,
+}
+impl Layer for UserLayer {
+    fn forward(&self, x: Array) -> Array {
+        let pre = match &self.kind {
+            LSpec::Gain { .. } => &x * &self.params[0],
+            LSpec::Affine3 { .. } => {
+                let y = Array::matmul((&x, false), (&self.params[0], true), None);
+                &(&y * &self.params[1]) + &self.params[2]
+            }
+            _ => x,
+        };
+        match self.kind.act() {
+            Act::None => pre,
+            Act::Relu => pre.relu(),
+            Act::Sigmoid => pre.sigmoid(),
+            Act::Softmax => pre.softmax(),
+        }
+    }
+    fn parameters(&mut self) -> Vec<&mut Array> {
+        self.params.iter_mut().collect()
     }
 }
 
@@ -393,16 +485,19 @@ impl<'a> Layer for RealLayer<'a> {
 pub fn build_layers<'a>(spec: &NetSpec, acts: &'a Acts, params: &[T<f64>]) -> Vec<RealLayer<'a>> {
     let init = fixed_initializer();
     let mut out = vec![];
+    let offs = spec.param_offsets();
+    let pdims = spec.param_dims();
     for (i, l) in spec.layers.iter().enumerate() {
         let mut layer = match l {
             LSpec::Dense { inp, out, act } => RealLayer::D(Dense::new(*inp, *out, &init, acts.get(*act))),
             LSpec::Conv { filters, stride, act } => RealLayer::C(Conv::new(*filters, *stride, &init, owned_act(*act))),
+            _ => RealLayer::U(UserLayer { kind: l.clone(), params: (0..l.n_params()).map(|j| Array::from(pdims[offs[i] + j].clone())).collect() }),
         };
         {
             let ps = layer.parameters();
-            assert_eq!(ps.len(), 2, "a layer exposes weights and biases");
+            assert_eq!(ps.len(), l.n_params(), "number of parameter arrays of the layer");
             for (j, p) in ps.into_iter().enumerate() {
-                let t = &params[2 * i + j];
+                let t = &params[offs[i] + j];
                 assert_eq!(p.dimensions(), &t.dims[..], "documented parameter dimensions");
                 *p = arr_t(t).tracked();
             }
